@@ -55,6 +55,16 @@ func c04TextLeaves() []*ref.Expr {
 	}
 }
 
+// c04BigLeaves: integers whose neighbours share one float64 image (beyond
+// 2^53), small factors whose product lies there, and the small numbers that
+// take them one step further: integer constants fold in integer arithmetic.
+func c04BigLeaves() []*ref.Expr {
+	return []*ref.Expr{
+		ref.N(9007199254740993), ref.N(9007199254740992), ref.N(-9007199254740993), ref.N(3002399751580331), ref.N(4503599627370497), ref.N(94906267),
+		ref.N(0), ref.N(1), ref.N(2), ref.N(3), ref.N(-1), ref.Call("int", ref.Value()),
+	}
+}
+
 var c04Arith = []string{"+", "-", "*", "/"}
 
 func isZeroLit(e *ref.Expr) bool {
@@ -84,6 +94,9 @@ func c04Units(t core.Tier) []c04Unit {
 		}
 	}
 	us = append(us, c04Unit{"text", 0}, c04Unit{"calls", 0}, c04Unit{"chain4q", 0}, c04Unit{"lists", 0}, c04Unit{"nested", 0})
+	for i := range c04BigLeaves() {
+		us = append(us, c04Unit{"big", i})
+	}
 	for i := 0; i < 21; i++ { // one unit per Boolean leaf (the first operand)
 		us = append(us, c04Unit{"bool", i})
 	}
@@ -148,6 +161,49 @@ func (c04) RunUnit(t core.Tier, u int, r *core.Reporter) {
 				}
 				run(ref.Btw(e1.Clone(), ref.Bin("-", ref.N(1), ref.N(1)), ref.Bin("+", ref.N(2), ref.Fl(1.5))), true)
 				run(ref.In(e1.Clone(), ref.N(2), ref.Bin("+", ref.N(1), ref.N(2)), ref.Fl(1.5)), true)
+			}
+		}
+	case "big":
+		bigStore := []store.Pair{{K: "a", V: "9007199254740993"}, {K: "b", V: "9007199254740992"}, {K: "c", V: "9007199254740994"}, {K: "d", V: "3"}}
+		runOn := func(e *ref.Expr, isBool bool) {
+			c := c04Case{Expr: e, Bool: isBool, Store: bigStore}
+			if !r.Begin(func() *core.Failure {
+				return &core.Failure{Property: "C04", Leg: "folded-vs-unfolded", Case: c.text(), Data: core.MustJSON(c)}
+			}) {
+				return
+			}
+			fs, nontrivial, status, obs, ev := c04Judge(&c)
+			r.Evals(ev)
+			for _, f := range fs {
+				status = "violation:" + f.Sig
+				r.Fail(f)
+			}
+			r.Case(c.text(), nontrivial, status)
+			r.Observed(obs)
+		}
+		B := c04BigLeaves()
+		a := B[un.i]
+		for _, b := range B {
+			for _, o1 := range c04Arith {
+				if o1 == "/" && isZeroLit(b) {
+					continue
+				}
+				e1 := bin(o1, a, b)
+				runOn(e1, false)
+				for _, cmp := range []string{"=", ">", "<="} {
+					runOn(bin(cmp, ref.Call("int", ref.Value()), e1), true)
+					runOn(bin(cmp, e1, ref.Call("int", ref.Value())), true)
+				}
+				runOn(ref.In(ref.Call("int", ref.Value()), e1.Clone(), ref.N(3)), true)
+				for _, c := range B {
+					for _, o2 := range c04Arith {
+						if o2 == "/" && isZeroLit(c) {
+							continue
+						}
+						runOn(bin(o2, e1, c), false)
+						runOn(bin(o2, c, e1), false)
+					}
+				}
 			}
 		}
 	case "nested":
